@@ -104,7 +104,7 @@ REGISTRY = {
     'C16': dict(module='contracts.C16', level='proof',
                 native=native_sweep('c16_points.py', 'near-field point count / coordinates / order for every count 1..100 per axis over a lattice of starts and steps (0.1, 0.05, negative, ...), far-field row count and order, numpy index axioms at small shapes', 15, 400),
                 undecided=[],
-                trusted=['index arithmetic of np.meshgrid / flatten / np.flip / .flat (cross-checked natively at shapes <= 3x3x3, 4x4 on every run)',
+                trusted=['index arithmetic of np.meshgrid / flatten / np.flip / .T / .flat: executed by numpy itself on arrays of symbolic objects for the counts (2,3,2), (3,1,2), (1,2,1) (unit near-field-point-order) and a 2x2 angle grid (unit far-field-tables); other counts: native sweep',
                          'np.arange(n) = [0..n-1]; float arithmetic read over the reals: element j = s + j*((s+i)-s) = s + j*i']),
     'C17': dict(module='contracts.C17', native=native_sweep('c17_addr.py', 'block order, numbering, both addressing forms for sources and loads, listings, all-of-object / all attachment on the real code through main()', 60, 1500), level='proof', undecided=[],
                 trusted=['list.sort(key) / sorted(): result is a permutation ordered by the key (axiom)']),
